@@ -8,6 +8,8 @@ B  tie: containers built three ways (content-index sheets, from_dict, direct API
    rendered 1-3 times; every (site, kind, name, uuid) occurrence of the real render()
    output, the top-level group list and the error (kind, name, reported pair) are compared
    with the model's answer (`uuid.run`), invented uuids canonicalised by first occurrence.
+   The containers may list groups before validation (also as the target sheets are parsed
+   into), some with query/status/system/count; several names may share one explicit uuid.
 C  direct oracle: the property's own statement evaluated on the real output.
 """
 from __future__ import annotations
@@ -90,6 +92,20 @@ def _csv(rows) -> str:
 # ------------------------------------------------------------------ spec → real container
 
 
+def group_meta(spec):
+    """the attributes besides name and uuid (query / status / system / count) every group of the
+    pre-existing top-level list carries, parallel to spec["groups"] ({} = a plain group)"""
+    meta = list(spec.get("group_meta") or [])
+    return (meta + [{}] * len(spec["groups"]))[:len(spec["groups"])]
+
+
+def listed_groups(spec):
+    """the pre-existing group list as real Group objects"""
+    from rpft.rapidpro.models.actions import Group
+
+    return [Group(n, u, **m) for (n, u), m in zip(spec["groups"], group_meta(spec))]
+
+
 def build_objects(spec):
     """Direct API calls.  Returns (container, flows, campaigns, triggers) — the container is
     filled only in api mode (dict mode assembles the pieces into an export dict)."""
@@ -101,7 +117,7 @@ def build_objects(spec):
     from rpft.rapidpro.models.nodes import BasicNode, EnterFlowNode, SwitchRouterNode
     from rpft.rapidpro.models.triggers import Trigger
 
-    container = RapidProContainer(groups=[Group(n, u) for n, u in spec["groups"]])
+    container = RapidProContainer(groups=listed_groups(spec))
     flows = []
     for f in spec["flows"]:
         fc = FlowContainer(f["name"], uuid=f["uuid"])
@@ -172,7 +188,7 @@ def build_dict(spec):
         "campaigns": camps,
         "fields": [],
         "flows": [f.render() for f in flows],
-        "groups": [{"name": n, "uuid": u} for n, u in spec["groups"]],
+        "groups": [dict({"name": n, "uuid": u}, **m) for (n, u), m in zip(spec["groups"], group_meta(spec))],
         "site": "https://rapidpro.idems.international",
         "triggers": [t.render() for t in triggers],
         "version": "13",
@@ -318,7 +334,10 @@ def model_request(spec):
             flows.append({"name": f["name"], "uuid": flow_placeholder(i), "nodes": nodes})
         for i, f in enumerate(spec["flows"]):  # add_flow, after all flows are parsed
             pre.append(["flow", f["name"], flow_placeholder(i)])
-        groups = []
+        # a container that lists groups before the sheets are parsed into it (parse_all_flows /
+        # _campaigns / _triggers on a RapidProContainer(groups=…)): recorded by validate(), after
+        # the obj_id records made while parsing
+        groups = [[n, u] for n, u in spec["groups"]]
         camps = [{"events": [[e["flow"][0] if e.get("flow") else None, None, e["type"] == "F"] for e in c["events"]],
                   "group": [c["group"][0], None]} for c in spec["campaigns"]]
         trigs = [{"flow": [t["flow"][0], None], "groups": [[g[0], None] for g in t["groups"]],
@@ -578,7 +597,15 @@ def run_real(spec, req):
                 res["flow_uuids"] = [f["uuid"] for f in out["flows"]]
                 res["logs"] = list(cap.records)
                 return res
-            if spec["mode"] == "sheets":
+            if spec["mode"] == "sheets" and spec["groups"]:
+                # the sheets parsed INTO a container that already lists groups (what parse_all does,
+                # starting from RapidProContainer(groups=…) instead of an empty container)
+                parser = ContentIndexParser(_mem_reader(build_sheets(spec)))
+                container = RapidProContainer(groups=listed_groups(spec))
+                parser.parse_all_flows(container)
+                parser.parse_all_campaigns(container)
+                parser.parse_all_triggers(container)
+            elif spec["mode"] == "sheets":
                 container = ContentIndexParser(_mem_reader(build_sheets(spec))).parse_all()
             elif spec["mode"] == "dict":
                 container = RapidProContainer.from_dict(build_dict(spec))
@@ -825,10 +852,30 @@ def pick_uuid(rng, kind, name, p_explicit, p_conflict, allow_empty=True):
     return None
 
 
+def gen_meta(rng, p=0.35):
+    """attributes a group of an export may carry besides name and uuid (a smart group has a
+    query); values that are falsy but not None included"""
+    if rng.random() >= p:
+        return {}
+    pool = {"query": ["age > 18", 'gender = "F"', ""], "status": ["ready", "initializing"],
+            "system": [False, True], "count": [0, 7]}
+    keys = rng.sample(sorted(pool), rng.randint(1, 4))
+    return {k: rng.choice(pool[k]) for k in sorted(keys)}
+
+
 def gen_spec(rng: random.Random, mode: str, avoid_known=True):
     p_explicit = rng.choice([0.0, 0.15, 0.4, 0.8])
     p_conflict = rng.choice([0.0, 0.0, 0.0, 0.1, 0.5])
     gnames = rng.sample(GROUP_NAMES, rng.randint(1, 4))
+    # two or three DIFFERENT group names bound to ONE explicit uuid (a renamed group whose former
+    # name survives in a flow definition; a sheet obj_id equal to another group's uuid): names, not
+    # uuids, are what the property asks to be functional, every name must still be listed
+    alias = {}
+    if len(gnames) >= 2 and rng.random() < 0.25:
+        shared = rng.sample(gnames, rng.randint(2, min(3, len(gnames))))
+        alias = {n: shared[0] for n in shared}
+        if p_explicit < 0.4:
+            p_explicit = rng.choice([0.4, 0.8])
     if mode == "sheets":
         gnames = [g for g in gnames] or ["G1"]
     nflows = rng.randint(0, 3) if mode != "sheets" else rng.randint(1, 3)
@@ -840,14 +887,33 @@ def gen_spec(rng: random.Random, mode: str, avoid_known=True):
 
     def G(allow_empty=True):
         n = rng.choice(gnames)
-        return [n, pick_uuid(rng, "group", n, p_explicit, p_conflict, allow_empty)]
+        return [n, pick_uuid(rng, "group", alias.get(n, n), p_explicit, p_conflict, allow_empty)]
+
+    def list_group(g, meta, at=None):
+        at = len(spec["groups"]) if at is None else at
+        spec["groups"].insert(at, g)
+        spec["group_meta"].insert(at, meta)
+
+    def list_aliased():
+        # the container lists one / several of the names sharing a uuid, mostly with the uuid,
+        # mostly with attributes
+        for n in rng.sample(sorted(alias), rng.randint(1, len(alias))):
+            u = pick_uuid(rng, "group", alias[n], max(p_explicit, 0.8), p_conflict, False)
+            list_group([n, u], gen_meta(rng, 0.7), rng.randint(0, len(spec["groups"])))
 
     def F():
         n = rng.choice(ref_pool)
         return [n, pick_uuid(rng, "flow", n, p_explicit, p_conflict)]
 
-    spec = {"mode": mode, "renders": rng.choice([1, 1, 2, 3]), "groups": [], "flows": [], "campaigns": [], "triggers": [], "blocks": {}}
+    spec = {"mode": mode, "renders": rng.choice([1, 1, 2, 3]), "groups": [], "group_meta": [], "flows": [], "campaigns": [],
+            "triggers": [], "blocks": {}}
     if mode == "sheets":
+        if rng.random() < 0.2:
+            # the sheets are parsed into a container that already lists groups
+            for _ in range(rng.randint(1, 3)):
+                list_group(G(), gen_meta(rng))
+            if alias and rng.random() < 0.7:
+                list_aliased()
         nblocks = rng.choice([0, 0, 1, 2])
         for b in range(nblocks):
             rows = []
@@ -920,9 +986,12 @@ def gen_spec(rng: random.Random, mode: str, avoid_known=True):
             spec["campaigns"].append({"name": f"camp{i}", "group": [rng.choice(gnames), None], "events": evs})
     else:
         for _ in range(rng.choice([0, 0, 1, 2, 3])):
-            spec["groups"].append(G())
+            list_group(G(), gen_meta(rng))
         if rng.random() < 0.15 and spec["groups"]:
-            spec["groups"].append(list(spec["groups"][0]))  # the same group listed twice
+            # the same group listed twice (with the same or other attributes)
+            list_group(list(spec["groups"][0]), dict(spec["group_meta"][0]) if rng.random() < 0.5 else gen_meta(rng))
+        if alias and rng.random() < 0.7:
+            list_aliased()
         for name in fnames:
             nodes = []
             for _ in range(rng.randint(0, 4)):
@@ -977,7 +1046,7 @@ def gen_spec(rng: random.Random, mode: str, avoid_known=True):
         tags = ["f"] * len(spec["flows"]) + ["c"] * len(spec["campaigns"]) + (["t"] if spec["triggers"] else [])
         rng.shuffle(tags)
         spec["interleave"] = tags
-    if mode == "sheets" and rng.random() < 0.04:
+    if mode == "sheets" and not spec["groups"] and rng.random() < 0.05:
         spec["via"] = "create_flows"
         spec["renders"] = 1
     if avoid_known:
@@ -1002,6 +1071,38 @@ def merge_strata(spec):
                 seen.setdefault(r["name"], r["obj_id"])
             elif merges(rows, i):
                 out["merged_rows"] += 1
+    return out
+
+
+def alias_strata(spec):
+    """what the spec holds of: listed groups with attributes, different names on one explicit uuid"""
+    names_of, uuids_of, referenced = {}, {}, set()
+    listed = {id(g) for g in spec["groups"]}
+    for kind, name, obj, key in iter_slots(spec):
+        if kind != "group":
+            continue
+        if id(obj) not in listed:
+            referenced.add(name)
+        if obj[key]:
+            names_of.setdefault(obj[key], set()).add(name)
+            uuids_of.setdefault(name, set()).add(obj[key])
+    if spec["mode"] == "sheets":
+        for c in spec["campaigns"]:
+            referenced.add(c["group"][0])
+        for t in spec["triggers"]:
+            referenced.update(g[0] for g in t["groups"] + t["exclude"])
+        for rows in [f["rows"] for f in spec["flows"]] + list(spec["blocks"].values()):
+            for r in rows:
+                if r["t"] == "split":
+                    referenced.update(r["conds"])
+    meta = group_meta(spec)
+    out = {"groups.listed_before_validation": len(spec["groups"]),
+           "groups.listed_with_attributes": sum(1 for m in meta if m),
+           "alias.case_with_two_names_on_one_explicit_uuid": int(any(len(ns) > 1 for ns in names_of.values())),
+           "alias.listed_group_with_attributes_shares_its_uuid_with_another_referenced_name": 0}
+    for (n, _), m in zip(spec["groups"], meta):
+        if m and any((names_of[u] - {n}) & referenced for u in uuids_of.get(n, ())):
+            out["alias.listed_group_with_attributes_shares_its_uuid_with_another_referenced_name"] = 1
     return out
 
 
@@ -1186,6 +1287,36 @@ CORPUS = [
     {"mode": "dict", "renders": 2, "blocks": {}, "groups": [["G1", ""]],
      "flows": [{"name": "F1", "uuid": "", "nodes": [{"t": "split", "cases": [["G1", ""]]}, {"t": "enter", "flow": ["F1", ""]}]}],
      "campaigns": [], "triggers": [{"flow": ["F1", ""], "groups": [["G1", "u-group-G1-a"]], "exclude": []}]},
+    # an export listing a smart group (query); a flow and a trigger still refer to the same uuid under
+    # another name (a renamed group): both names are bound to that uuid, both must be listed
+    {"mode": "dict", "renders": 2, "blocks": {}, "groups": [["G1", "u-group-G1-a"]], "group_meta": [{"query": "age > 18"}],
+     "flows": [{"name": "F1", "uuid": "u-flow-F1-a", "nodes": [{"t": "actions", "actions": [{"t": "add", "groups": [["G2", "u-group-G1-a"]]}]},
+                                                                 {"t": "split", "cases": [["G2", "u-group-G1-a"]]}]}],
+     "campaigns": [], "triggers": [{"flow": ["F1", None], "groups": [], "exclude": [["G2", "u-group-G1-a"]]}]},
+    # the same through the API: the shared uuid of the second name is given at one place only (campaign
+    # group); the listed groups carry status / system / count; a third, plain listed group
+    {"mode": "api", "renders": 3, "add_flow": True, "blocks": {},
+     "groups": [["G3", "u-group-G3-a"], ["G1", "u-group-G1-a"], ["Shared", None]],
+     "group_meta": [{}, {"status": "ready", "system": False, "count": 0}, {"count": 7}],
+     "flows": [{"name": "F1", "uuid": None, "nodes": [{"t": "actions", "actions": [{"t": "remove", "groups": [["G1", None], ["G2", None], ["Shared", None]]}]},
+                                                        {"t": "split", "cases": [["G2", None], ["G3", None]]}]}],
+     "campaigns": [{"name": "c", "group": ["G2", "u-group-G1-a"], "by_name": True, "events": []}],
+     "triggers": [{"flow": ["F1", None], "groups": [["G2", None]], "exclude": [["G1", None]]}]},
+    # sheets parsed into a container that already lists a smart group; rows give that group's uuid as
+    # obj_id of another group name
+    {"mode": "sheets", "renders": 2, "blocks": {}, "groups": [["G1", "u-group-G1-a"], ["G3", None]],
+     "group_meta": [{"query": "age > 18", "count": 0}, {}], "interleave": ["f", "t"], "campaigns": [],
+     "flows": [{"name": "F1", "uuid": None, "rows": [{"t": "add", "name": "G2", "obj_id": "u-group-G1-a"},
+                                                      {"t": "split", "name": "G2", "obj_id": "u-group-G1-a", "conds": ["G2", "G3"]}]}],
+     "triggers": [{"flow": ["F1", None], "groups": [["G2", None]], "exclude": [["G1", None]]}]},
+    # a listed group with attributes and WITHOUT uuid gets the uuid given elsewhere, shared with another name
+    {"mode": "dict", "renders": 2, "blocks": {}, "groups": [["G1", None], ["G1", None]], "group_meta": [{"query": ""}, {"system": True}],
+     "flows": [{"name": "F1", "uuid": "u-flow-F1-a", "nodes": [{"t": "split", "cases": [["G2", "u-group-G1-a"], ["G1", "u-group-G1-a"]]}]}],
+     "campaigns": [], "triggers": []},
+    # three plain names on one uuid (no attributes anywhere)
+    {"mode": "api", "renders": 2, "add_flow": False, "blocks": {}, "groups": [["G1", "u-group-G1-a"], ["G2", "u-group-G1-a"]],
+     "flows": [{"name": "F1", "uuid": "u-flow-F1-a", "nodes": [{"t": "actions", "actions": [{"t": "add", "groups": [["G3", "u-group-G1-a"], ["G2", None]]}]}]}],
+     "campaigns": [], "triggers": []},
 ]
 
 
@@ -1203,6 +1334,10 @@ def _fold(ck, specs, results, stream):
         if spec["mode"] == "sheets":
             for k, v in merge_strata(spec).items():
                 ck.count(f"sheets.{k}", v)
+        for k, v in alias_strata(spec).items():
+            ck.count(k, v)
+        if spec["mode"] == "sheets" and spec["groups"]:
+            ck.count(f"{stream}.sheets.parsed_into_container_listing_groups")
         ck.count(f"renders={spec['renders']}")
         ck.count("outcome." + (info["error"] or "rendered"))
         ck.count("occurrences", r["n_occ"])
@@ -1230,7 +1365,10 @@ def run(ck: core.Check):
         "ContentIndexParser, export dict through RapidProContainer.from_dict, direct API calls), group/flow names drawn "
         "from small pools so that they are shared across flows, campaigns and triggers, explicit uuids on a random "
         "subset of occurrences (probability 0/0.15/0.4/0.8 per occurrence, a second conflicting uuid with probability "
-        "0/0.1/0.5), rendered 1-3 times; non-trivial = at least two reference occurrences; distinct = distinct specs"
+        "0/0.1/0.5), rendered 1-3 times; the containers may list groups before validation (from_dict, "
+        "RapidProContainer(groups=…), also as the target the sheets are parsed into), a third of those groups carrying "
+        "query/status/system/count; in a quarter of the cases two or three different group names are bound to one "
+        "explicit uuid (renamed group / obj_id equal to another group's uuid), the listed ones mostly with attributes; non-trivial = at least two reference occurrences; distinct = distinct specs"
     )
     ck.assumptions = [
         "Python dict keeps insertion order and the position of an updated key (modelled by dset; exercised by the tie on the order of the top-level group list)",
@@ -1299,7 +1437,10 @@ def run(ck: core.Check):
 
     for need in ("main.sheets", "main.dict", "main.api", "expect.conflict", "expect.trigger_unknown", "expect.ok", "renders=3",
                  "sheets.merged_rows", "sheets.merged_row_with_obj_id",
-                 "sheets.merged_obj_id_after_same_group_without_or_other_obj_id"):
+                 "sheets.merged_obj_id_after_same_group_without_or_other_obj_id",
+                 "groups.listed_with_attributes", "alias.case_with_two_names_on_one_explicit_uuid",
+                 "alias.listed_group_with_attributes_shares_its_uuid_with_another_referenced_name",
+                 "main.sheets.parsed_into_container_listing_groups"):
         if not ck.strata.get(need):
             raise core.Infra(f"generator self-check: stratum {need} is empty")
 
